@@ -3,7 +3,7 @@
 cd /verif
 for item in "$@"; do
   s=${item%%:*}; only=""; [ "$item" != "$s" ] && only="--only ${item#*:}"
-  tools/seed_run.sh $s quick $only > /tmp/seedsweep-$s.log 2>&1
+  tools/seed_run.sh $s ${SEEDTIER:-quick} $only > /tmp/seedsweep-$s.log 2>&1
   echo "$s ($only): $(tail -n 1 /tmp/seedsweep-$s.log) :: $(grep -E 'violation|VIOLATION|does not apply|patch failed' /tmp/seedsweep-$s.log | head -n 2 | cut -c1-160 | tr '\n' '|')" >> /tmp/seedsweep.log
 done
 echo done >> /tmp/seedsweep.log
